@@ -26,13 +26,21 @@ from .astutil import U, walk_own
 MAX_ROWS = 32
 
 
-def _const(e):
-    """constants, displays of constants, and closed lambdas (no free local variables: parameters, module aliases and
+def _const(e, free_ok=None):
+    """free_ok(name): the caller vouches that this free name denotes the same module-level object where the table is defined and where
+    it is used (module-level functions and aliases in a module-level table, not shadowed in the consuming function)
+    constants, displays of constants, and closed lambdas (no free local variables: parameters, module aliases and
     attribute chains on them only), operator.* / attrgetter("name") accessors"""
     if isinstance(e, ast.Constant):
         return True
     if isinstance(e, (ast.Tuple, ast.List)):
-        return all(_const(x) for x in e.elts)
+        return all(_const(x, free_ok) for x in e.elts)
+    if free_ok is not None:
+        root = e
+        while isinstance(root, ast.Attribute):
+            root = root.value
+        if isinstance(root, ast.Name) and isinstance(e, (ast.Name, ast.Attribute)) and free_ok(root.id):
+            return True
     if isinstance(e, ast.UnaryOp) and isinstance(e.op, ast.USub) and isinstance(e.operand, ast.Constant):
         return True
     if isinstance(e, ast.Lambda):
@@ -83,8 +91,18 @@ def _table(repo, f, it):
                     break
     if isinstance(v, ast.Call) and U(v.func) in ("frozenset", "set", "tuple", "list") and len(v.args) == 1 and not v.keywords:
         v = v.args[0]
-    if isinstance(v, (ast.Tuple, ast.List, ast.Set)) and v.elts and len(v.elts) <= MAX_ROWS and all(_const(x) for x in v.elts):
-        return v.elts
+    if isinstance(v, (ast.Tuple, ast.List, ast.Set)) and v.elts and len(v.elts) <= MAX_ROWS:
+        local = {a.arg for a in ast.walk(f.node.args) if isinstance(a, ast.arg)} | {x.id for x in ast.walk(f.node) if isinstance(x, ast.Name) and isinstance(x.ctx, ast.Store)}
+
+        same_mod = (isinstance(it, ast.Name) and it.id in repo.consts.get(f.mod, {})) or (isinstance(it, ast.Attribute) and cq is not None and cq.rsplit(".", 1)[0] == f.mod)
+
+        def free_ok(name):
+            if not same_mod:
+                return False
+            # a module-level name of the table's module, visible unshadowed in the consuming function of the same module
+            return name not in local and (name in _MODULE_NAMES or repo.chase(f.mod, name) is not None)
+        if all(_const(x, free_ok) for x in v.elts):
+            return v.elts
     return None
 
 
